@@ -52,6 +52,10 @@ var fams = map[string]*Fam{
 }
 var famNames = []string{"I", "S", "C", "M", "R", "V", "B", "D"}
 
+// joinModels: families whose relation LTags goes through a join MODEL of its own (SetupJoinTable); its
+// columns share names with columns of the related model
+var joinModels = map[string]interface{}{"I": IPLTag{}, "C": CPLTag{}, "D": DPLTag{}}
+
 func init() {
 	fams["D"] = &Fam{Name: "D", Parts: []string{"ID"}, Types: []string{"uint"}, Conv: true,
 		Mod: map[string]interface{}{"P": DP{}, "O": DO{}, "M": DM{}, "T": DT{}, "G": DG{}, "N": DN{}, "U": DU{}}}
@@ -96,6 +100,7 @@ func (f *Fam) rels() map[string]Rel {
 			"Many":       {Name: "Many", Kind: "has_many_by_convention", On: "P", Child: "M", PF: id, CF: []string{"DPID"}, CPtr: true},
 			"Target":     {Name: "Target", Kind: "belongs_to_by_convention", On: "P", Child: "T", Single: true, PF: []string{"TargetID"}, CF: id, PPtr: true},
 			"Tags":       {Name: "Tags", Kind: "many2many_default_keys", On: "P", Child: "G", M2M: true, PF: id, CF: id, JTable: "dp_tags", JOwner: []string{"dp_id"}, JTag: []string{"dg_id"}},
+			"LTags":      {Name: "LTags", Kind: "many2many_join_model", On: "P", Child: "G", M2M: true, PF: id, CF: id, JTable: "dp_ltags", JOwner: []string{"dp_id"}, JTag: []string{"dg_id"}, Tbl: "J5"},
 			"Friends":    {Name: "Friends", Kind: "self_many2many", On: "P", Child: "P", M2M: true, PF: id, CF: id, JTable: "dp_friends", JOwner: []string{"dp_id"}, JTag: []string{"friend_id"}, Tbl: "J2"},
 			"Boss":       {Name: "Boss", Kind: "self_belongs_to", On: "P", Child: "P", Single: true, PF: []string{"BossID"}, CF: id, PPtr: true},
 			"Team":       {Name: "Team", Kind: "self_has_many", On: "P", Child: "P", PF: id, CF: []string{"BossID"}, CPtr: true},
@@ -121,6 +126,10 @@ func (f *Fam) rels() map[string]Rel {
 		"Boss":  {Name: "Boss", Kind: "self_belongs_to", On: "P", Child: "P", Single: true, PF: pre("B", f.Parts), CF: f.Parts, PPtr: true},
 		"Team":  {Name: "Team", Kind: "self_has_many", On: "P", Child: "P", PF: f.Parts, CF: pre("B", f.Parts), CPtr: true},
 		"Owner": {Name: "Owner", Kind: "belongs_to", On: "M", Child: "P", Single: true, PF: pre("P", f.Parts), CF: f.Parts, PPtr: true},
+	}
+	if _, ok := joinModels[f.Name]; ok { // many2many through a join model of its own
+		m["LTags"] = Rel{Name: "LTags", Kind: "many2many_join_model", On: "P", Child: "G", M2M: true, PF: f.Parts, CF: f.Parts,
+			JTable: strings.ToLower(f.Name) + "p_ltags", JOwner: lower("owner_", f.Parts), JTag: lower("tag_", f.Parts), Tbl: "J5"}
 	}
 	if _, ok := f.Mod["N"]; ok {
 		m["Notes"] = Rel{Name: "Notes", Kind: "polymorphic", On: "P", Child: "N", PF: f.Parts, CF: []string{"OwnerID"}, CPtr: true, Poly: "xp"}
@@ -156,7 +165,7 @@ func (f *Fam) kt(r Rel) []string {
 
 func (f *Fam) relNamesOnP() []string {
 	if f.Conv {
-		return []string{"One", "Many", "Target", "Tags", "Friends", "Boss", "Team", "Notes", "Info.Buddy", "Subs"}
+		return []string{"One", "Many", "Target", "Tags", "Friends", "Boss", "Team", "Notes", "Info.Buddy", "Subs", "LTags"}
 	}
 	out := []string{"One", "Many", "Target", "Tags", "Boss", "Team"}
 	if _, ok := f.Mod["N"]; ok {
@@ -167,6 +176,9 @@ func (f *Fam) relNamesOnP() []string {
 	}
 	if _, ok := f.Mod["W"]; ok {
 		out = append(out, "WTags")
+	}
+	if _, ok := joinModels[f.Name]; ok {
+		out = append(out, "LTags")
 	}
 	return out
 }
@@ -504,6 +516,186 @@ func kpOfField(v reflect.Value) KP {
 	}
 }
 
+// ---------------------------------------------------------------- whole rows (column for column)
+
+// SV: one SQL value of a stored row, or the value an attached record holds in the field of that column.
+type SV struct {
+	K string // "n" NULL | "i" integer | "t" text
+	I int64
+	S string
+}
+
+func (v SV) gallina() string {
+	switch v.K {
+	case "i":
+		return lib.App("VInt", lib.Z(v.I))
+	case "t":
+		return lib.App("VText", lib.Str(v.S))
+	}
+	return "VNull"
+}
+func gSVs(vs []SV) string { return lib.ListOf(vs, SV.gallina) }
+
+// RowV: the values of one row / record in column order, keyed by the row's uid.
+type RowV struct {
+	UID  int64 `json:"uid"`
+	Vals []SV  `json:"vals"`
+}
+
+func gRowV(r RowV) string { return lib.Pair(lib.Z(r.UID), gSVs(r.Vals)) }
+
+// svOfRaw: a raw SQL value; deleted_at is reduced to NULL / set (timestamps are not compared).
+func svOfRaw(col string, raw interface{}) SV {
+	if raw == nil {
+		return SV{K: "n"}
+	}
+	if col == "deleted_at" {
+		return SV{K: "i", I: 1}
+	}
+	switch x := raw.(type) {
+	case int64:
+		return SV{K: "i", I: x}
+	case []byte:
+		return SV{K: "t", S: string(x)}
+	case string:
+		return SV{K: "t", S: x}
+	}
+	return SV{K: "t", S: fmt.Sprint(raw)}
+}
+
+// svOfField: the Go value an in-memory record holds in a column's field.
+func svOfField(v reflect.Value) SV {
+	if v.Kind() == reflect.Ptr {
+		if v.IsNil() {
+			return SV{K: "n"}
+		}
+		return svOfField(v.Elem())
+	}
+	switch x := v.Interface().(type) {
+	case gorm.DeletedAt:
+		if !x.Valid {
+			return SV{K: "n"}
+		}
+		return SV{K: "i", I: 1}
+	case sql.NullString:
+		if !x.Valid {
+			return SV{K: "n"}
+		}
+		return SV{K: "t", S: x.String}
+	case sql.NullInt64:
+		if !x.Valid {
+			return SV{K: "n"}
+		}
+		return SV{K: "i", I: x.Int64}
+	case []byte:
+		if x == nil {
+			return SV{K: "n"}
+		}
+		return SV{K: "t", S: string(x)}
+	}
+	switch v.Kind() {
+	case reflect.String:
+		return SV{K: "t", S: v.String()}
+	case reflect.Uint, reflect.Uint8, reflect.Uint16, reflect.Uint32, reflect.Uint64:
+		return SV{K: "i", I: int64(v.Uint())}
+	case reflect.Int, reflect.Int8, reflect.Int16, reflect.Int32, reflect.Int64:
+		return SV{K: "i", I: v.Int()}
+	}
+	return SV{K: "t", S: fmt.Sprint(v.Interface())}
+}
+
+// recOf: the values record obj (of model m) holds, in the order of the model's columns (schema.DBNames).
+func (e *Env) recOf(f *Fam, m string, obj reflect.Value) RowV {
+	sch := schemaOf(e.db, f.Mod[m])
+	o := reflect.Indirect(obj)
+	r := RowV{UID: uidOf(obj)}
+	for _, name := range sch.DBNames {
+		r.Vals = append(r.Vals, svOfField(o.FieldByIndex(sch.FieldsByDBName[name].StructField.Index)))
+	}
+	return r
+}
+
+// dumpRowsOf: the stored rows of model m with the given uids, all columns in schema order, by raw SQL.
+func (e *Env) dumpRowsOf(f *Fam, m string, uids []int64) []RowV {
+	sch := schemaOf(e.db, f.Mod[m])
+	out := []RowV{}
+	if len(uids) == 0 {
+		return out
+	}
+	in := make([]string, len(uids))
+	for i, u := range uids {
+		in[i] = fmt.Sprint(u)
+	}
+	rows, err := e.sql.Query("SELECT uid, " + strings.Join(sch.DBNames, ", ") + " FROM " + sch.Table + " WHERE uid IN (" + strings.Join(in, ",") + ") ORDER BY rowid")
+	lib.Must(err)
+	defer rows.Close()
+	for rows.Next() {
+		raw := make([]interface{}, 1+len(sch.DBNames))
+		ptrs := make([]interface{}, len(raw))
+		for i := range raw {
+			ptrs[i] = &raw[i]
+		}
+		lib.Must(rows.Scan(ptrs...))
+		r := RowV{UID: raw[0].(int64)}
+		for i, name := range sch.DBNames {
+			r.Vals = append(r.Vals, svOfRaw(name, raw[1+i]))
+		}
+		out = append(out, r)
+	}
+	return out
+}
+
+// dumpJoinRows: every column of the join table, same row order as dumpJoins.
+func (e *Env) dumpJoinRows(rel Rel) ([]string, [][]SV) {
+	rows, err := e.sql.Query("SELECT * FROM " + rel.JTable + " ORDER BY rowid")
+	lib.Must(err)
+	defer rows.Close()
+	cols, err := rows.Columns()
+	lib.Must(err)
+	out := [][]SV{}
+	for rows.Next() {
+		raw := make([]interface{}, len(cols))
+		ptrs := make([]interface{}, len(cols))
+		for i := range raw {
+			ptrs[i] = &raw[i]
+		}
+		lib.Must(rows.Scan(ptrs...))
+		vs := make([]SV, len(cols))
+		for i, c := range cols {
+			vs[i] = svOfRaw(c, raw[i])
+		}
+		out = append(out, vs)
+	}
+	return cols, out
+}
+
+// fillRows records, for the records objs gorm attached / returned for relation r: the columns of the
+// related model, the stored rows with the uids these records carry, and what the records hold in memory.
+func (e *Env) fillRows(o *Obs, f *Fam, r Rel, alias string, objs []reflect.Value) {
+	o.Cols = append([]string{}, schemaOf(e.db, f.Mod[r.Child]).DBNames...)
+	o.Alias = alias
+	seen := map[string]bool{}
+	var uids []int64
+	o.Recs = []RowV{}
+	for _, obj := range objs {
+		rec := e.recOf(f, r.Child, obj)
+		k := fmt.Sprint(rec)
+		if seen[k] {
+			continue
+		}
+		seen[k] = true
+		o.Recs = append(o.Recs, rec)
+		if !containsI(uids, rec.UID) {
+			uids = append(uids, rec.UID)
+		}
+	}
+	o.Rows = e.dumpRowsOf(f, r.Child, uids)
+	o.JCols, o.JRows = []string{}, [][]SV{}
+	if r.M2M && o.Mode == "MAssocFind" {
+		o.JCols, o.JRows = e.dumpJoinRows(r)
+	}
+}
+
 // ---------------------------------------------------------------- observation records
 
 type ChildRow struct {
@@ -566,6 +758,12 @@ type Obs struct {
 	ErrText  string    `json:"err_text,omitempty"`
 	Nested   bool      `json:"nested"`
 	Att2     []Att2    `json:"attached2,omitempty"`
+	Cols     []string  `json:"cols,omitempty"`      // columns of the related model
+	Rows     []RowV    `json:"rows,omitempty"`      // stored rows of the attached uids
+	Recs     []RowV    `json:"records,omitempty"`   // what the attached records hold, column for column
+	JCols    []string  `json:"join_cols,omitempty"` // many2many Find: every column of the join table
+	JRows    [][]SV    `json:"-"`
+	Alias    string    `json:"alias,omitempty"` // Joins: alias of the joined relation in the query
 	hop      Hop
 	hop2     Hop
 	children []ChildRow
@@ -580,7 +778,9 @@ func (o Obs) term() string {
 		lib.ListOf(o.children, ChildRow.gallina),
 		lib.ListOf(o.joins, func(j JoinRow) string { return lib.Pair(gKey(j.L), gKey(j.R)) }),
 		lib.ListOf(o.Att, lib.ZList), lib.Z(o.Err),
-		lib.Bool(o.Nested), o.hop2.gallina(), lib.ListOf(o.child2, ChildRow.gallina), att2)
+		lib.Bool(o.Nested), o.hop2.gallina(), lib.ListOf(o.child2, ChildRow.gallina), att2,
+		lib.ListOf(o.Cols, lib.Str), lib.ListOf(o.Rows, gRowV), lib.ListOf(o.JCols, lib.Str), lib.ListOf(o.JRows, gSVs),
+		lib.Str(o.Alias), lib.ListOf(o.Recs, gRowV))
 }
 
 // ---------------------------------------------------------------- running one input
@@ -746,14 +946,18 @@ func (e *Env) dumpJoins(f *Fam, rel Rel) []JoinRow {
 	return out
 }
 
-func condArgs(c Cond) []interface{} {
+func condArgs(c Cond) []interface{} { return condArgsQ(c, "") }
+
+// condArgsQ: the data column qualified by qual ("table."): needed where the query joins a table that has
+// a column of the same name (a join model with its own v column)
+func condArgsQ(c Cond, qual string) []interface{} {
 	var q string
 	var args []interface{}
 	switch c.Kind {
 	case "mod":
-		q, args = "v % ? = ?", []interface{}{c.A, c.B}
+		q, args = qual+"v % ? = ?", []interface{}{c.A, c.B}
 	case "gt":
-		q, args = "v > ?", []interface{}{c.A}
+		q, args = qual+"v > ?", []interface{}{c.A}
 	case "none":
 		q = "1 = 0"
 	default:
@@ -1022,7 +1226,11 @@ func (e *Env) run(in Input) []Obs {
 			res := reflect.New(reflect.SliceOf(ct))
 			var aerr error
 			if code == 0 {
-				aerr = handle().Find(res.Interface(), condArgs(cc)...)
+				qual := ""
+				if rel.Kind == "many2many_join_model" { // the join model has a v column of its own
+					qual = f.table(db, rel.Child) + "."
+				}
+				aerr = handle().Find(res.Interface(), condArgsQ(cc, qual)...)
 			}
 			ids := []int64{}
 			for i := 0; i < res.Elem().Len(); i++ {
@@ -1054,6 +1262,11 @@ func (e *Env) run(in Input) []Obs {
 				o.joins = e.dumpJoins(f, rel)
 			}
 			o.PKeys = printable(o.Parents)
+			var found []reflect.Value
+			for i := 0; i < res.Elem().Len(); i++ {
+				found = append(found, res.Elem().Index(i))
+			}
+			e.fillRows(&o, f, rel, "", found)
 			obs = append(obs, o)
 		}
 		return obs
@@ -1101,6 +1314,7 @@ func (e *Env) run(in Input) []Obs {
 			o.joins = e.dumpJoins(f, r)
 		}
 		o.PKeys = printable(o.Parents)
+		e.fillRows(&o, f, r, rn, lvl1)
 		if nested && in.Mode == "preload" {
 			o.Nested = true
 			o.hop2 = Hop{Single: r2.Single, Cond: cond2, Unscoped: in.Unscoped, Poly: r2.Poly}
@@ -1124,16 +1338,19 @@ func (e *Env) run(in Input) []Obs {
 			// Joins(A).Preload(A.B): preloadEntryPoint runs hop B on the joined A objects
 			o2 := Obs{Rel: rn + "." + r2.Name, Mode: "MPreload", M2M: false, Err: code, ErrText: etext,
 				hop: Hop{Single: r2.Single, Cond: cond2, Unscoped: in.Unscoped, Poly: r2.Poly}, hop2: Hop{Cond: Cond{Kind: "all"}}}
+			var objs2 []reflect.Value
 			for _, c := range lvl1 {
 				o2.Parents = append(o2.Parents, keyOfObj(c, r2.PF))
-				ids, _ := attached(c, r2.Name)
+				ids, ob := attached(c, r2.Name)
 				o2.Att = append(o2.Att, ids)
+				objs2 = append(objs2, ob...)
 			}
 			if o2.Att == nil {
 				o2.Att = [][]int64{}
 			}
 			o2.children = e.dump(f, r2, nil, false)
 			o2.PKeys = printable(o2.Parents)
+			e.fillRows(&o2, f, r2, "", objs2)
 			out = append(out, o2)
 		}
 		if in.Mode == "joins" && in.JoinNested != "" && rn == rel.Name {
@@ -1141,28 +1358,33 @@ func (e *Env) run(in Input) []Obs {
 			rj := rels[in.JoinNested]
 			oj := Obs{Rel: rn + "+" + rj.Name, Mode: "MJoins", Err: code, ErrText: etext,
 				hop: Hop{Single: rj.Single, Cond: Cond{Kind: "all"}, Unscoped: in.Unscoped, Poly: rj.Poly}, hop2: Hop{Cond: Cond{Kind: "all"}}}
+			var objsj []reflect.Value
 			for _, c := range lvl1 {
 				oj.Parents = append(oj.Parents, keyOfObj(c, rj.PF))
-				ids, _ := attached(c, rj.Name)
+				ids, ob := attached(c, rj.Name)
 				oj.Att = append(oj.Att, ids)
+				objsj = append(objsj, ob...)
 			}
 			if oj.Att == nil {
 				oj.Att = [][]int64{}
 			}
 			oj.children = e.dump(f, rj, nil, false)
 			oj.PKeys = printable(oj.Parents)
+			e.fillRows(&oj, f, rj, rn+"__"+rj.Name, objsj)
 			out = append(out, oj)
 			if in.JoinDeep != "" {
 				// third relation of the join path, attached to the joined second-level objects
 				rd := rels[in.JoinDeep]
 				od := Obs{Rel: rn + "+" + rj.Name + "+" + rd.Name, Mode: "MJoins", Err: code, ErrText: etext,
 					hop: Hop{Single: rd.Single, Cond: Cond{Kind: "all"}, Unscoped: in.Unscoped, Poly: rd.Poly}, hop2: Hop{Cond: Cond{Kind: "all"}}}
+				var objsd []reflect.Value
 				for _, c1 := range lvl1 {
 					_, l2 := attached(c1, rj.Name)
 					for _, c2 := range l2 {
 						od.Parents = append(od.Parents, keyOfObj(c2, rd.PF))
-						ids, _ := attached(c2, rd.Name)
+						ids, ob := attached(c2, rd.Name)
 						od.Att = append(od.Att, ids)
+						objsd = append(objsd, ob...)
 					}
 				}
 				if od.Att == nil {
@@ -1170,6 +1392,7 @@ func (e *Env) run(in Input) []Obs {
 				}
 				od.children = e.dump(f, rd, nil, false)
 				od.PKeys = printable(od.Parents)
+				e.fillRows(&od, f, rd, rn+"__"+rj.Name+"__"+rd.Name, objsd)
 				out = append(out, od)
 			}
 		}
@@ -1178,12 +1401,14 @@ func (e *Env) run(in Input) []Obs {
 			r3 := rels[in.Nested2]
 			o3 := Obs{Rel: rn + "." + r2.Name + "." + r3.Name, Mode: "MPreload", M2M: r3.M2M, Err: code, ErrText: etext,
 				hop: Hop{Single: r3.Single, Cond: in.Cond2, Unscoped: in.Unscoped, Poly: r3.Poly}, hop2: Hop{Cond: Cond{Kind: "all"}}}
+			var objs3 []reflect.Value
 			for _, c1 := range lvl1 {
 				_, lvl2 := attached(c1, r2.Name)
 				for _, c2 := range lvl2 {
 					o3.Parents = append(o3.Parents, keyOfObj(c2, r3.PF))
-					ids, _ := attached(c2, r3.Name)
+					ids, ob := attached(c2, r3.Name)
 					o3.Att = append(o3.Att, ids)
+					objs3 = append(objs3, ob...)
 				}
 			}
 			if o3.Att == nil {
@@ -1194,6 +1419,7 @@ func (e *Env) run(in Input) []Obs {
 				o3.joins = e.dumpJoins(f, r3)
 			}
 			o3.PKeys = printable(o3.Parents)
+			e.fillRows(&o3, f, r3, "", objs3)
 			out = append(out, o3)
 		}
 	}
@@ -1874,6 +2100,35 @@ func genInput(r *lib.Rng, edge bool) Input {
 			in.Tables["J4"] = append(in.Tables["J4"], row)
 		}
 	}
+	if lt, ok := rels["LTags"]; ok {
+		// many2many through a join MODEL of its own: surrogate ids in another order than the related rows'
+		// keys, and data columns named like columns of the related model (values of OTHER rows)
+		var seen [][]Val
+		n := r.Range(1, 10)
+		for i := 0; i < n; i++ {
+			var l, g []Val
+			if r.Chance(4, 5) && len(pk) > 0 {
+				l = lib.Pick(r, pk)
+			} else {
+				l = lib.Pick(r, pool)
+			}
+			if r.Chance(4, 5) && len(gk) > 0 {
+				g = lib.Pick(r, gk)
+			} else {
+				g = lib.Pick(r, pool)
+			}
+			both := append(append([]Val{}, l...), g...)
+			if hasTuple(seen, both) {
+				continue
+			}
+			seen = append(seen, both)
+			row := Row{F: map[string]Val{"id": VI(int64(n - i)), "v": VI(int64(r.Intn(10)))}}
+			setKey(&row, lt.JOwner, l)
+			setKey(&row, lt.JTag, g)
+			joinExtra(f, &row, lib.Pick(r, pool), int64(9000+i))
+			in.Tables["J5"] = append(in.Tables["J5"], row)
+		}
+	}
 	if fr, ok := rels["Friends"]; ok { // self-referential many2many
 		var seen [][]Val
 		for i, n := 0, r.Range(1, 9); i < n && len(pk) > 0; i++ {
@@ -1921,6 +2176,16 @@ func genInput(r *lib.Rng, edge bool) Input {
 		}
 	}
 	return in
+}
+
+// joinExtra fills the data columns of a join-model row that are named like columns of the related model.
+func joinExtra(f *Fam, row *Row, other []Val, uid int64) {
+	switch f.Name {
+	case "I":
+		row.F["k"], row.F["uid"] = other[0], VI(uid)
+	case "C":
+		row.F["a"], row.F["b"] = other[0], other[1]
+	}
 }
 
 // targetedInputs: a small deterministic stream run in EVERY tier ((a)-(d) below).
@@ -2189,6 +2454,57 @@ func targetedInputs() []Input {
 				Input{Fam: fam, Rel: "WTags", Mode: "assoc", Shape: sh, Subset: sub, Kept: true, Cond: Cond{Kind: "gt", A: 1, As: "inline"}, Cond2: Cond{Kind: "mod", A: 2, B: 1, As: "inline"}, Tables: tw})
 		}
 	}
+	// (h) many2many through a join MODEL of its own (SetupJoinTable) whose columns share names with the
+	//     related model's (surrogate id, key-named and data columns carrying OTHER rows' values): the
+	//     records Preload / Association().Find hand out must be the related rows, column for column
+	for _, fam := range []string{"I", "C", "D"} {
+		f := fams[fam]
+		lt := f.rels()["LTags"]
+		key := func(i int) []Val {
+			t := make([]Val, len(f.Types))
+			for j, ty := range f.Types {
+				if ty == "str" {
+					t[j] = VS(fmt.Sprint("h", i, j))
+				} else {
+					t[j] = VI(int64(i + 1))
+				}
+			}
+			return t
+		}
+		var ps, gs, js []Row
+		for i := 0; i < 3; i++ {
+			p := Row{F: map[string]Val{"UID": VI(int64(101 + i)), "V": VI(int64(i))}}
+			setKey(&p, f.Parts, key(i))
+			ps = append(ps, p)
+		}
+		for i := 0; i < 4; i++ {
+			g := Row{F: map[string]Val{"UID": VI(int64(501 + i)), "V": VI(int64(i + 1))}, Del: i == 3}
+			setKey(&g, f.Parts, key(i))
+			gs = append(gs, g)
+		}
+		for n, lk := range [][2]int{{1, 3}, {1, 2}, {0, 3}, {0, 1}, {2, 0}, {5, 2}} {
+			j := Row{F: map[string]Val{"id": VI(int64(n + 1)), "v": VI(int64(7 - n))}}
+			setKey(&j, lt.JOwner, key(lk[0]))
+			setKey(&j, lt.JTag, key(lk[1]))
+			joinExtra(f, &j, key((lk[1]+1)%4), int64(501+(lk[1]+2)%4))
+			js = append(js, j)
+		}
+		th := map[string][]Row{"P": ps, "G": gs, "J5": js}
+		all := Cond{Kind: "all"}
+		for _, sh := range []string{"slice", "ptrs", "struct"} {
+			var sub []int64
+			if sh == "struct" {
+				sub = []int64{102}
+			}
+			for _, un := range []bool{false, true} {
+				out = append(out,
+					Input{Fam: fam, Rel: "LTags", Mode: "preload", Unscoped: un, Shape: sh, Subset: sub, Cond: all, Cond2: all, Tables: th},
+					Input{Fam: fam, Rel: "LTags", Mode: "assoc", Unscoped: un, Shape: sh, Subset: sub, Cond: all, Cond2: all, Tables: th})
+			}
+			out = append(out,
+				Input{Fam: fam, Rel: "LTags", Mode: "assoc", Shape: sh, Subset: sub, Kept: true, Cond: Cond{Kind: "gt", A: 1, As: "inline"}, Cond2: Cond{Kind: "mod", A: 2, B: 1, As: "inline"}, Tables: th})
+		}
+	}
 	// (d) relations whose keys are overridden by tags: polymorphic has many / has one with
 	//     `foreignKey:Code` and has many with `references:Code`, where a parent's Code reads like the
 	//     primary key of ANOTHER parent
@@ -2412,6 +2728,13 @@ func main() {
 	a := lib.ParseArgs()
 	db, _, sqlDB, err := gdb.Open(gdb.Opt{})
 	lib.Must(err)
+	for _, fn := range famNames {
+		if jm, ok := joinModels[fn]; ok {
+			jp := reflect.New(reflect.TypeOf(jm)).Interface()
+			lib.Must(db.SetupJoinTable(reflect.New(reflect.TypeOf(fams[fn].Mod["P"])).Interface(), "LTags", jp))
+			lib.Must(db.AutoMigrate(jp))
+		}
+	}
 	for _, fn := range famNames {
 		f := fams[fn]
 		for _, m := range []string{"T", "G", "H", "W", "P", "O", "M", "N", "L", "C", "U"} {
